@@ -363,6 +363,25 @@ impl Family for A1 {
                     out.violations.push(viol(rt_prop, "right_secret_rejected_after_wrong_one", format!("after a rejected attempt with another password/key the correct one no longer decrypts: {:?}", d.outcome)));
                 }
             }
+            // ---- a second file on the same thread from ANOTHER sender to the same recipient, and from the
+            // same sender to ANOTHER recipient (nothing learnt in one handshake may leak into the next)
+            if let (Mode::Key { s_priv, r_priv, .. }, true) = (&s.mode, public_api) {
+                let mut kr = Rng::new(s.entropy_tag ^ 0x2e2e);
+                let (s2, r2) = (Hx(kr.bytes(32)), Hx(kr.bytes(32)));
+                for (sp, rp_) in [(&s2, r_priv), (s_priv, &r2)] {
+                    let m2 = Mode::Key { s_priv: sp.clone(), r_priv: rp_.clone(), e_priv: None, payload: None, omit_e_pub: false };
+                    let _e = install_entropy(s.entropy_tag ^ 0x77aa, trace.clone());
+                    let e2 = run_encrypt(&m2, &pt, &ReadScript::default(), &WriteScript::default(), &trace);
+                    remove_entropy();
+                    let d2 = run_decrypt(&m2, &e2.sink, &ReadScript::default(), &WriteScript::default(), &trace, None, None);
+                    let want = pubkey_of(&sp.a32());
+                    let ok = e2.outcome.is_ok() && matches!(&d2.outcome, Outcome::Ok(Some(snd)) if snd[..] == want[..]) && d2.sink == pt;
+                    if !ok {
+                        out.violations.push(viol("C01", "second_pair_on_same_thread", format!("after one round trip, a file between another key pair ({} the {}) does not round-trip on the same thread: enc {:?} dec {:?}", if sp == s_priv { "same sender, other recipient" } else { "other sender, same recipient" }, "first pair's counterpart", e2.outcome.class(), d2.outcome)));
+                    }
+                }
+                out.count("probe.second_pair_round_trips", 2);
+            }
             // ---- mixed versions (C06): the pinned release reads what the working tree writes
             if let (Mode::Key { r_priv, s_priv, .. }, true) = (&s.mode, public_api) {
                 match crate::selftest::pinned_key_decrypt(&r_priv.a32(), &ct) {
